@@ -88,7 +88,8 @@ def corrupt(kw, how):
     elif how == "rank_zero" and isinstance(kw.get("rank"), int):
         kw["rank"] = 0
     elif how == "rank_big" and "rank" in kw:
-        kw["rank"] = 50 if isinstance(kw["rank"], int) else [50 for _ in kw["rank"]] if isinstance(kw["rank"], (list, tuple)) else kw["rank"]
+        # larger than every mode size, but small enough not to exhaust memory (rank 50 on three modes made HALS allocate 65 GB)
+        kw["rank"] = 7 if isinstance(kw["rank"], int) else [7 for _ in kw["rank"]] if isinstance(kw["rank"], (list, tuple)) else kw["rank"]
     elif how == "fixed_oob" and isinstance(kw.get("fixed_modes"), list):
         kw["fixed_modes"] = list(kw["fixed_modes"]) + [7]
     elif how == "init_short" and isinstance(kw.get("init"), (tuple, list)) and len(kw["init"]) == 2 and isinstance(kw["init"][1], list) and len(kw["init"][1]) > 1:
@@ -228,7 +229,7 @@ def execute(spec, P, fault=None, observe=False, stride=1, line_fault=None, line_
 
 def crash_points(n, transient, rng, tier):
     """Which event indices to inject at.  Returns (sorted list, exhaustive?)."""
-    cap_all = 150 if tier == "quick" else 1500
+    cap_all = 120 if tier == "quick" else 1500
     if n <= cap_all:
         return list(range(1, n + 1)), True
     pts = set()
@@ -238,10 +239,10 @@ def crash_points(n, transient, rng, tier):
     pts.update(edges[:60])
     if len(tr) > 0:
         pts.update(rng.sample(tr, min(len(tr), 40)))
-    head = 30 if tier == "quick" else 200
+    head = 20 if tier == "quick" else 200
     pts.update(range(1, head + 1))
     pts.update(range(n - head + 1, n + 1))
-    k = 40 if tier == "quick" else 600
+    k = 30 if tier == "quick" else 600
     pts.update(rng.sample(range(1, n + 1), min(n, k)))
     return sorted(pts), False
 
@@ -571,16 +572,16 @@ def replay_file(path):
 # ------------------------------------------------------------------ driver interface
 
 QUICK_RUNS = 3000
-CHUNK = 10
+CHUNK = 4
 CHUNK_TIMEOUT = 900
 THOROUGH_S = 1200
-DET_RUNS = 30
+DET_RUNS = 20
 SETS = ("distinct",)
 ASSUMPTIONS = [
     "fault points are (a) the backend calls made by library code through tl.* dispatch and simulator-supplied callbacks, (b) executed source lines of the library's own files (KeyboardInterrupt raised from a sys.settrace line event); interrupts inside one line or inside C code are out of reach",
     "argument values are compared by value, bit for bit, including the bytes of the ultimate base buffer of every array view; object identity is not compared",
     "documented in-place parameters are exempt: cp_mode_dot/tucker_mode_dot(copy=False), the V start matrix of hals_nnls",
-    "workloads are a seeded sample over the catalogue x argument kinds x options; per workload the backend-call crash-point space is enumerated completely when it has <= 150 (quick) / 1500 (thorough) events, otherwise sampled (head, tail, seeded, plus every point flagged by the observation pass); source-line crash points are always a sample (window edges + interior sample + 10/200 seeded lines)",
+    "workloads are a seeded sample over the catalogue x argument kinds x options; per workload the backend-call crash-point space is enumerated completely when it has <= 120 (quick) / 1500 (thorough) events, otherwise sampled (head, tail, seeded, plus every point flagged by the observation pass); source-line crash points are always a sample (window edges + interior sample + 10/200 seeded lines)",
     "the per-line observation uses adler32 checksums; a collision can only hide a transient window from the observation pass, never change a verdict (verdicts use full byte-level diffs)",
     "C15 has no schedule in its quantifier: concurrent sharing of inputs between threads is deliberately not explored",
 ]
